@@ -724,10 +724,16 @@ pub fn apply(sim: &mut Sim, spec: &WorldSpec, op: &Op) -> &'static str {
 				return "tamper-skipped";
 			}
 			let (f, t) = live[pick(*link, live.len())];
+			// a message is altered at most once: altering the same byte twice with the same value would restore the
+			// authentic secret, which the receiver rightly accepts
+			let already: Vec<[u8; 32]> = sim.log.iter().filter_map(|(_, e)| if let SEvent::Tamper { secret, .. } = e { Some(*secret) } else { None }).collect();
 			let q = sim.links.get_mut(&(f, t)).unwrap();
 			let mut secret = [0u8; 32];
 			for w in q.iter_mut() {
 				if let Wire::Revoke(m) = w {
+					if already.contains(&m.per_commitment_secret) {
+						return "tamper-skipped";
+					}
 					m.per_commitment_secret[*byte as usize % 32] ^= *xor;
 					secret = m.per_commitment_secret;
 					break;
